@@ -23,7 +23,7 @@
    classes occurs in the run, (c) holds — these three classes are the only ways raft.rs (with the repairs)
    can commit different entries at one index. *)
 From Coq Require Import NArith List.
-From Agdb Require Import Raft RaftWitness RaftProofs RaftInv RaftLog RaftLogProofs RaftLogMatch RaftLogLC RaftLogCA.
+From Agdb Require Import Raft RaftWitness RaftProofs RaftInv RaftLog RaftLogProofs RaftLogMatch RaftLogLC RaftLogCA RaftLogAck.
 Import ListNotations.
 Open Scope N_scope.
 
@@ -124,6 +124,37 @@ Example C28c_commit_noquorum_witness_harmless_fixed :
 Proof. exact commit_noquorum_witnesses_harmless_fixed. Qed.
 Print Assumptions C28c_commit_noquorum_witness_harmless_fixed.
 
+(* ------------------------------------------------------------------ the ROOT CAUSE of `commit-without-quorum`, and its repair
+   `stale_ack_counted_b rv size evs` (RaftLog.v; a function of the run, reconstructed with a ghost that records for
+   every row of every peer table whether it was written by `commit()` from an Ok answer to an Append/Heartbeat request
+   of the leader's current term since the node became Leader): at a step that raises the commit index of a node that
+   is and stays Leader, some row of ANOTHER node with log_index >= the new commit index — a row `commit()` counted —
+   is not such an acknowledgement.  Unlike the semantic marker `commit_noquorum_b` it does not fire when a correct
+   leader counts a follower that acknowledged and has since moved to a higher term.
+
+   PROVED (RaftLogAck.v), every cluster size (1 included), every adversarial event list: with the acknowledgement
+   repair the marker is never set — a Leader counts only acknowledgements of its current term.  Invariant: every row of
+   another node in a Leader's table that is not a fresh acknowledgement has log_index 0 (cleared at election; written
+   since by `commit()` only, which the guard of `response()` admits only for answers of the current term), and a row
+   with log_index 0 is not counted at a step that raises the commit index. *)
+Theorem C28c_no_stale_ack_fixed : forall size evs, stale_ack_counted_b rr_fixed size evs = false.
+Proof. exact RaftLogAck.stale_ack_never_fixed. Qed.
+Print Assumptions C28c_no_stale_ack_fixed.
+
+(* the same for every revision with the acknowledgement repair, whatever the election flags *)
+Theorem C28c_no_stale_ack_any_election_revision : forall rv size evs,
+  fix_ack_term rv = true -> stale_ack_counted_b rv size evs = false.
+Proof. exact RaftLogAck.stale_ack_never. Qed.
+Print Assumptions C28c_no_stale_ack_any_election_revision.
+
+(* non-vacuity / the defect before the repair: in both `commit_noquorum` corpus histories the leader of term 2
+   counts the row of the deposed leader of term 1, written by `update_node` from that leader's own Append request *)
+Example C28c_stale_ack_before_ack_fix :
+  stale_ack_counted_b rr_before_ack_fix w28_commit_noquorum_n w28_commit_noquorum = true /\
+  stale_ack_counted_b rr_before_ack_fix w29_commit_noquorum_n w29_commit_noquorum = true.
+Proof. exact RaftLogAck.stale_ack_witnesses_before_ack_fix. Qed.
+Print Assumptions C28c_stale_ack_before_ack_fix.
+
 (* ------------------------------------------------------------------ towards a conditional theorem for (c)
    LOG MATCHING, PROVED for the repaired code (rr_fixed), every cluster size other
    than 1 and every adversarial event list, under the single hypothesis that the class ack-from-diverged-log does
@@ -165,6 +196,12 @@ Print Assumptions C28_log_matching_nonvacuous.
         old-term-commit         old_term_commit_b (c_hist ..) = false
         commit-without-quorum   commit_noquorum_b rr_fixed size evs = false
    then no two nodes hold different entries at an index both have committed.
+   NOT DONE (hence `_partial`): the third hypothesis is still the SEMANTIC marker.  With the acknowledgement repair the
+   root cause is gone (`C28c_no_stale_ack_fixed`), but the semantic marker can still be set in harmless histories of
+   rr_fixed (a follower acknowledges and then votes in a higher term before the leader counts it), so the hypothesis
+   cannot simply be dropped: that needs Raft's acknowledgement-history argument (an acknowledgement of (T, idx) by v
+   precedes every vote of v for a term > T; quorum intersection between ackers and voters) in place of the present
+   state invariant "a quorum of nodes of term T holds the entry at the commit step" — RAFT_NOTES.md, round 5.
    Proof: RaftLogWf.v, RaftLogMatch.v (log matching), RaftLogHand.v, RaftLogLC.v (leader completeness, invariant LC),
    RaftLogCA.v (invariant CA: every committed index of every node was committed by a leader with the entry the node
    holds; two leader commits of one index are commits of the same entry). *)
